@@ -29,9 +29,10 @@ CLAIMED = {
         technique="Coq proof of DFS-with-shared-memo completeness/exactness + extracted-model correspondence + recipe-level definite-assignment oracle",
         design_ref="DESIGN.md §4 C17, design_notes/C17.md"),
     "C01": dict(
-        text="Proof (Coq, closed under the global context, 96 theorems). End to end for one routine (C01_routine_end_to_end, Props/C01_end_to_end.v): for every option record, main routine or "
+        text="Proof (Coq, closed under the global context, 125 theorems over 1018 obligations). End to end for one routine (C01_routine_end_to_end, Props/C01_end_to_end.v): for every option record, main routine or "
              "subroutine body, and recipe on which compile_one succeeds, every environment, fuel, stack and state - if the source semantics (Src/Denote.v) gives an outcome, the FLATTENED INSTRUCTION LIST "
-             "(lower -> addIncoming -> NormalizeBlocks -> sortBlocks -> flattenBlocks) started at pc 0 reaches exactly the corresponding halting configuration and no other; the only side condition "
+             "(lower -> addIncoming -> NormalizeBlocks -> sortBlocks -> flattenBlocks) started at pc 0 reaches exactly the corresponding halting configuration and no other; the 'sort/flatten succeed' hypotheses are discharged for every routine compile_one accepts "
+             "(C01_routine_end_to_end_total, via Props/C20_late.v); the only side condition "
              "(root not loop-headed) is proved necessary by a counterexample and discharged for every subroutine body and every well-typed main routine (C01_subroutine_end_to_end, "
              "C01_main_end_to_end_well_typed). Stage theorems: C01_lower_correct (all recipes, options, continuations, stacks, states), C01_normalize_correct, C01_sort_blocks_complete, "
              "C01_flatten_correct(_final), single-exit of lowered graphs. With the optimiser: C01_routine_end_to_end_optimized_partial (inherits C03's side conditions). Slot assignment composed "
@@ -126,7 +127,10 @@ CLAIMED = {
     "C20": dict(
         text="Proof (Coq, closed under the global context), partial + refutation: accepts_well_typed_partial - every well-typed program of the straight-line fragment (operator trees, n-ary expressions, nested Seq, "
              "Exit/Return), of ANY length and nesting depth, compiles to COk in the compile model at every version 2..10, mode and option setting; C20_tree - addIncoming/validateTree/NormalizeBlocks keep the "
-             "tree-validity invariant for all lowered routines (so validateTree's AssertionError is unreachable); walk_depth_is_program_length + walk_depth_unbounded REFUTE totality at a bounded interpreter "
+             "tree-validity invariant for all lowered routines (so validateTree's AssertionError is unreachable); LATE PASSES (Props/C20_late.v, 29 theorems): for every routine compile_one accepts - any control flow - sortBlocks and flattenBlocks succeed (C20_sort_total, C20_flatten_total; "
+             "sort fails iff the end block is unreachable), the optimiser and assembly are total, and compile_model never ends in a Crash* outcome for programs without deferred expressions, with any "
+             "number of subroutines, recursion, optimiser on or off (C20_compile_model_no_crash_partial); C20_main_only_accepts_partial: a checked main-only program compiles to TEAL. "
+             "walk_depth_is_program_length + walk_depth_unbounded REFUTE totality at a bounded interpreter "
              "stack (for every bound there is a well-typed program whose addIncoming recursion is deeper: open known finding long-program-recursion). Tie: outcome class (TEAL / one of the five PyTeal errors / "
              "crash) and exact text of the real compileTeal / Compilation.compile / Router.compile_program compared with the model on small shapes x versions x modes x options, random programs and ill-typed "
              "mutations, subroutine programs, API variants, routers and size families in worker interpreters; the measured recursion depth of the real addIncoming must equal the model's depth + 1.",
